@@ -3,6 +3,7 @@ package rules
 import (
 	"fmt"
 	"go/ast"
+	"go/token"
 	"pigeonverif/internal/load"
 	"regexp"
 	"sort"
@@ -193,7 +194,7 @@ func c08d(c *Ctx, a *absVariant) {
 	}
 	rv := recvName(fd)
 	// one iteration of the loop on its normalised paths: what it assumes (facts), what it stores, how it ends
-	paths := c.vnorm(v).without("parseRule", "cloneState", "restoreState", "setMemoized", "getMemoized", "restore", "printIndent", "sliceFrom", "addErr", "addErrAt").normBlock(fd, loop.Body.List)
+	paths, loopNames := c.vnorm(v).without("parseRule", "cloneState", "restoreState", "setMemoized", "getMemoized", "restore", "printIndent", "sliceFrom", "addErr", "addErrAt").normBlockNamed(fd, loop.Body.List)
 	if len(paths) == 0 {
 		r.Unk("C08-d", construct, v.Name, v.Where(loop.Pos()), "the body of the growth loop could not be enumerated")
 		return
@@ -229,6 +230,21 @@ func c08d(c *Ctx, a *absVariant) {
 				lastVar = e.Text[:strings.Index(e.Text, "=")]
 			case strings.HasSuffix(e.Text, "=*"+rv+".errs"):
 				errsVar = e.Text[:strings.Index(e.Text, "=")]
+			}
+		}
+	}
+	// the depth may be counted by the loop statement itself: `for depth := 0; ; depth++`
+	if depthVar == "" {
+		if id, ok := loop.Post.(*ast.IncDecStmt); ok && id.Tok == token.INC {
+			if nm, ok := id.X.(*ast.Ident); ok {
+				// the counter of a `for i := 0; …; i++` loop is the position #1 of the normal form
+				depthVar = "#1"
+				if as, ok := loop.Init.(*ast.AssignStmt); !ok || len(as.Lhs) != 1 || nospace(as.Lhs[0]) != nm.Name || nospace(as.Rhs[0]) != "0" {
+					depthVar = nm.Name
+					if loopNames[nm.Name] != "" {
+						depthVar = loopNames[nm.Name]
+					}
+				}
 			}
 		}
 	}
@@ -514,6 +530,14 @@ func memoOffInLeftRecursiveRules(c *Ctx, v *variants.Variant, rule string) {
 				x := strings.TrimPrefix(cj, "!")
 				if cnt[x] == 1 {
 					x = defs[x]
+				}
+				// locals defined once inside that definition (a hoisted `top := len(p.rstack) - 1`)
+				for round := 0; round < 3; round++ {
+					for name, n := range cnt {
+						if n == 1 && name != "" {
+							x = regexp.MustCompile(`\b`+regexp.QuoteMeta(name)+`\b`).ReplaceAllString(x, defs[name])
+						}
+					}
 				}
 				if strings.HasPrefix(cj, "!") && x == lrFlag {
 					has = true
